@@ -113,11 +113,11 @@ type runOpts struct {
 
 // effective timeout of an operation: the op's own (private Regexps), else the spec's.
 func effTimeout(sc *Scenario, op *Op) int64 {
-	if op.TimeoutNs > 0 {
-		return op.TimeoutNs
+	if op.TimeoutNs == -1 {
+		return 0 // no timeout
 	}
-	if op.TimeoutNs < 0 {
-		return 0
+	if op.TimeoutNs != 0 {
+		return op.TimeoutNs // may be negative: an already expired timeout
 	}
 	if op.Re >= len(sc.Res) {
 		return 0
@@ -215,10 +215,10 @@ func runScript(sc *Scenario, ro runOpts) *runResult {
 					re = res[op.Re]
 				}
 				if re == nil {
-				} else if op.TimeoutNs > 0 {
-					re.MatchTimeout = time.Duration(op.TimeoutNs)
-				} else if op.TimeoutNs < 0 {
+				} else if op.TimeoutNs == -1 {
 					re.MatchTimeout = regexp2.DefaultMatchTimeout
+				} else if op.TimeoutNs != 0 {
+					re.MatchTimeout = time.Duration(op.TimeoutNs)
 				}
 				d := effTimeout(sc, op)
 				r.Started = true
@@ -232,8 +232,9 @@ func runScript(sc *Scenario, ro runOpts) *runResult {
 						vDead = r.T0 + 5*p + 2*tickNs + cfg.Jitter*3 + (400+2*schedSlack)*maxCost
 					}
 				case op.Kind == OpIdle:
-				case d > 0 && r.WantCapped:
-					// a catastrophic timed call: must end in a timeout
+				case d != 0 && r.WantCapped:
+					// a catastrophic timed call: must end in a timeout (a negative timeout has expired already)
+					d := max64(d, 0)
 					pre := int64(12*len(op.In.Text()) + 600) // steps spent decoding the input before the deadline is set
 					if fair && cfg.StallProb == 0 && cfg.SyncStallProb == 0 {
 						vDead = r.T0 + d + 3*p + 2*tickNs + cfg.Jitter + pre*sumCost + 2*schedSlack*maxCost
@@ -247,10 +248,7 @@ func runScript(sc *Scenario, ro runOpts) *runResult {
 				case !r.WantCapped:
 					stepLim = 20*r.WantSteps + 20000
 				}
-				var keep *[]kept
-				if op.Keep {
-					keep = &r.kept
-				}
+				keep := &r.kept
 				vsim.SetOpLimits(stepLim, vDead)
 				vsim.Inflight(1)
 				r.hits0 = vsim.PoolHitCount()
@@ -261,8 +259,8 @@ func runScript(sc *Scenario, ro runOpts) *runResult {
 				r.Late, r.Busy = vsim.SpawnedLag()
 				r.PoolHits = vsim.PoolHitCount() - r.hits0
 				r.Done = true
-				if d > 0 {
-					vsim.NoteMax(r.T1 + d)
+				if d != 0 {
+					vsim.NoteMax(r.T1 + max64(d, 0))
 				}
 				vsim.OpBoundary()
 			}
@@ -287,10 +285,14 @@ func runScript(sc *Scenario, ro runOpts) *runResult {
 								fmt.Fprintf(&sb, "PANIC:%v", x)
 							}
 						}()
-						canonOne(&sb, k.m)
+						if k.e != nil {
+							sb.WriteString(k.e.Error())
+						} else {
+							canonOne(&sb, k.m)
+						}
 					}()
 					if sb.String() != k.canon && recs[i].KeptBad == "" {
-						recs[i].KeptBad = fmt.Sprintf("retained match changed: was %s now %s", clip(k.canon), clip(sb.String()))
+						recs[i].KeptBad = fmt.Sprintf("a value returned earlier (match or error) reads differently now: was %s now %s", clip(k.canon), clip(sb.String()))
 					}
 				}
 			}
@@ -456,7 +458,7 @@ func checkRecord(sc *Scenario, rr *runResult, c, i int, op *Op, r *opRecord, p, 
 	}
 	if strings.HasSuffix(r.Got, "TIMEOUT") && !strings.HasSuffix(r.Want, "TIMEOUT") {
 		rr.Probes["timeouts"]++
-		if d <= 0 {
+		if d == 0 {
 			viol("timeout-without-deadline", c, i, "%s returned a timeout although no MatchTimeout is set", desc())
 			return
 		}
@@ -483,4 +485,11 @@ func checkRecord(sc *Scenario, rr *runResult, c, i int, op *Op, r *opRecord, p, 
 	if r.Got != r.Want {
 		viol("result-mismatch", c, i, "%s: got %s want %s", desc(), clip(r.Got), clip(r.Want))
 	}
+}
+
+func max64(a, b int64) int64 {
+	if a > b {
+		return a
+	}
+	return b
 }
